@@ -68,6 +68,12 @@ def gen_cases(seed, n_cases):
         n = int(rng.integers(1, 60)) if ci % 9 else 120
         rows = _rows(rng, n, dims)
         case = {"kind": kind, "rows": rows, "dims": dims}
+        # row labels: a table that went through remove_feature / adapt_to_trimming keeps its old labels
+        case["index"] = ["default", "gapped", "shuffled", "default"][(ci // len(kinds)) % 4]
+        if case["index"] == "gapped":
+            case["labels"] = [int(x) for x in np.cumsum(rng.integers(1, 4, n))]
+        elif case["index"] == "shuffled":
+            case["labels"] = [int(x) for x in rng.permutation(n)]
         if kind == "oob_whole":
             case["box"] = int(rng.integers(1, 12))
         if kind == "trim":
@@ -99,6 +105,8 @@ def classify(case, detail):
 def run_case(case):
     kind = case["kind"]
     m = motl_from_rows(case["rows"])
+    if case.get("labels") is not None:
+        m.df.index = pd.Index(case["labels"])
     before = m.df.copy()
     dims = np.array(case["dims"], dtype=float)
     pos = _pos(before)
